@@ -3,3 +3,7 @@
 
 def c16_mirror(ctx):
     ctx.note("C16.G6 (C++ mirror of drain/run) not implemented yet")
+
+
+def c15_deleter(ctx):
+    ctx.note("C15.D4 (C++ deleter) not implemented yet")
